@@ -793,6 +793,8 @@ class UniqueDirectivesPerLocationChecker(ValidationVisitor):
     enter_fragment_spread = _validate_unique_directive_names
     enter_inline_fragment = _validate_unique_directive_names
     enter_fragment_definition = _validate_unique_directive_names
+    # Directives of variable definitions are not visited as directive nodes.
+    enter_variable_definition = _validate_unique_directive_names
 
 
 class KnownArgumentNamesChecker(ValidationVisitor):
